@@ -42,6 +42,9 @@ SCEN = {
     "compose": (["FetchOne", "FetchMany", "All", "Unique", "Freeze", "Merge", "One", "Columns"], [], {1, 99}, {2}),
     "iterhold": (["Iter", "ItNext", "FetchOne", "FetchMany", "All", "First", "Close", "Unique", "Scalars"], ["Iter", "FetchMany", "All", "Unique"],
                  {1, 99}, {2}),
+    # unique() + sized fetches over LONGER row sets (4 rows, 3 distinct values): the refill loop of the unique many-row getter needs
+    # a batch left short by duplicates followed by more new distinct rows than are missing (seeded change C10-1)
+    "uniq": (["Unique", "FetchMany", "Partitions", "All", "YieldPer"], [], {2, 3}, {2}),
     "unhash": (["FetchOne", "FetchMany", "All", "Unique", "One", "Scalars", "Columns"], ["FetchMany", "All", "Next", "Unique"], {2, 99}, {2}),
 }
 FOOTPRINT = ["FetchOne", "Next", "IterStep", "Iter", "ItNext", "FetchMany", "Partitions", "All", "First", "One", "OneOrNone", "Scalar", "ScalarOne",
@@ -61,6 +64,7 @@ def tier_plan(quick):
             ("compose", 2, 4, 2, ["iter", "chunk", "cursor", "full"], False),
             ("unhash", 2, 3, 2, ["iter", "cursor_json"], True),
             ("iterhold", 2, 4, 2, ["iter", "merged", "cursor", "stream2", "full"], False),
+            ("uniq", 4, 3, 3, ["iter", "chunk", "cursor", "stream2"], False),
         ]
     return [
         ("fetch", 4, 6, 3, ALL_IMPLS, False),
@@ -73,6 +77,7 @@ def tier_plan(quick):
         ("unhash", 3, 4, 2, ["iter", "frozen", "cursor_json"], True),
         ("iterhold", 3, 4, 2, ["iter", "chunk", "frozen", "merged", "cursor", "cursor_json", "cursor_merged", "stream1", "stream2", "streamg",
                                "full"], False),
+        ("uniq", 5, 4, 3, ["iter", "chunk", "cursor", "stream1", "stream2", "full"], False),
     ]
 
 
